@@ -13,17 +13,17 @@ NOTE = ("Lean 4.33 kernel, axioms propext/Classical.choice/Quot.sound only (audi
 claimed = {
  "C01": ("Lean theorems over the streaming-parser model: token-stream recursion = tree fold for every tree, option set and continuation; the fold equals the declarative conventions on the domain (one non-blank text run per element) up to map-entry order; model tied to xmlToMapParser by correspondence on generated documents under all option combinations and four entry points; conventions spec also evaluated directly against the implementation", "7 C01"),
  "C02": ("Lean theorems: compact encoder bytes = rendering of the encoder's tree (C02_marshal_eq_render), decoded Maps satisfy the `Decoded` invariant and are their own image, XML -> Map -> XML -> Map is a fixed point at tree level and - through the explicit tokenizer law TokLaw - at byte level, for the default options (C02_fixed_point_tree/_bytes) and for EVERY symmetric option pair: any attribute prefix and text key, case/snake folding, simple-values-as-map, keep-spaces, float/bool cast in any combination (C02_sym_fixed_point_tree/_bytes under the stated library laws LowerLaw/FloatLaw/FloatTextLaw, with witnesses that the excluded options break it); decoder-side escaping, the indented encoder and well-formedness are covered by the round-trip correspondence and oracles (compact bytes vs model, re-decode equality, token streams of indented vs compact, option histories through the toggle forms); one known finding (keep-spaces + indent)", "7 C02"),
- "C03": ("Lean theorems: for every well-formed JSON-shaped value the encoder's tree decodes (by the documented conventions) to exactly the declared image: scalars as text, lists as repeated siblings in order, attribute and text entries, empties as empty elements (C03_tree_preserves, C03_encode_preserves, C03_anyXml_preserves), encoding succeeds on the domain; compact bytes of Map.Xml / AnyXml compared with the model byte for byte, an independent image oracle in Go on both compact and indented output", "7 C03"),
- "C04": ("Lean theorems over the sequence-codec model (sorting by pairwise distinct sequence numbers inverts any permutation, decoder numbering, stream decoding = tree fold, tree-level round trip on the domain) + correspondence of decode and encode + token-stream round-trip oracle through Xml, XmlIndent and BeautifyXml", "7 C04"),
+ "C03": ("Lean theorems: for every well-formed JSON-shaped value the encoder's tree decodes (by the documented conventions) to exactly the declared image: scalars as text, lists as repeated siblings in order, attribute and text entries, empties as empty elements (C03_tree_preserves, C03_encode_preserves, C03_anyXml_preserves), encoding succeeds on the domain; compact bytes of Map.Xml / AnyXml compared with the model byte for byte, an independent image oracle in Go on both compact and indented output; for the indented encoder: same tree, and its layout token stream decodes to the image when prefix/indent are in the trim set (C03_indent_tree_preserves), bytes of Map.XmlIndent compared with the indent model byte for byte (xenci)", "7 C03"),
+ "C04": ("Lean theorems over the sequence-codec model (sorting by pairwise distinct sequence numbers inverts any permutation, decoder numbering, stream decoding = tree fold, tree-level round trip on the domain) + correspondence of decode and encode + token-stream round-trip oracle through Xml, XmlIndent and BeautifyXml; indented sequence encoder modelled byte-exactly (xseqi): fails/panics exactly when the compact one does, its bytes minus layout are the compact bytes for every input, decode -> XmlIndent -> decode reproduces the decoded value for blank prefix/indent (C04_indent_*)", "7 C04"),
  "C06": ("Lean theorems: string-literal round trip for both escaping modes and every string, safe encoding never contains < > &, value and Map level round trip through the modelled JSON grammar, acceptance characterisation of NewMapJson; encoder bytes compared with the model and with encoding/json itself (same escaping), decoder compared with the model on generated and corrupted texts and with encoding/json's first value; one known finding (JSON null)", "7 C06"),
  "C13": ("Lean theorems over delivery schedules: the byte adaptors are transparent for every schedule, the getJson scanner depends only on the bytes (zero-length reads, last byte with EOF), its extent on a generative grammar of objects incl. strings ending in an escaped backslash, JSON documents come out in order; XML documents read one after another at token level are the Maps of the single-document decoder in order, nothing beyond a document is consumed, the bulk handler stops after the document on which the handler returned false, truncation gives the complete prefix and an error (C13_xml_*); adaptors and scanner compared with the model read by read; whole streams (XML, sequence XML, JSON; reader, Raw, bulk handler and Raw bulk handler forms) under random legal byte schedules and through a chunked io.Reader without ReadByte compared with direct decoding; one known finding (JSON raw white space)", "7 C13"),
  "C15": ("Lean theorems: the decoders' models are total and fail exactly when the token stream ends before the root closes, decoder output never reaches a panic site of the encoder models, and the REGENERATED list of potentially panicking source sites is contained in the reviewed table (C15_sites_covered, re-checked on every run); 17 decoder entry points on truncated/corrupted bytes and every string-argument API on hostile strings and odd Maps run in child processes (panic, stack overflow and hang detection)", "7 C15"),
- "C16": ("Lean theorems: equal Maps (any entry order at any depth) give byte-identical output (C16_perm_invariant, C16_mapXml_perm_invariant), sortByKey sorts and is order-independent on distinct keys; shuffled rebuilds with different capacities, repeated calls, attribute/sibling order read back, and every Writer / Raw / Maps string / file form compared with the byte-returning forms", "7 C16"),
+ "C16": ("Lean theorems: equal Maps (any entry order at any depth) give byte-identical output (C16_perm_invariant, C16_mapXml_perm_invariant), sortByKey sorts and is order-independent on distinct keys; shuffled rebuilds with different capacities, repeated calls, attribute/sibling order read back, and every Writer / Raw / Maps string / file form compared with the byte-returning forms; the same for the indented Map encoder with no hypothesis and for the indented sequence encoder under distinct sequence numbers (C16_indent_*)", "7 C16"),
  "C17": ("partial: Lean facts theorem over the regenerated call graph - no read-only operation nor anything it reaches assigns a package-level variable (C17_readonly_no_global_write); Copy = JSON round trip returns the original Map (C17_copy_equal); in the read-only-sharing abstraction (steps read the shared state and write only their own locals) every schedule gives every goroutine its sequential result (C17_interleaving_independent, C17_concurrent_eq_sequential) - that Go calls have that shape rests on the facts theorem, the Go memory model and the dynamic checks: receiver deep-equal around every read-only operation incl. sub-key forms, results of every encoder unchanged by later calls, Copy scribble test, goroutine stress vs sequential results (under the race detector in the thorough tier)", "7 C17"),
- "C18": ("Lean theorems over the option state machine: explicit forms idempotent, argument-less forms as documented, escaping switches never both on, restore to the fresh state after ANY history with punctuation key prefixes (C18_restore), defaults = source initialisers (regenerated), only setters write globals, non-interference facts over the regenerated call graph; histories compared state by state with the implementation (hook dump), restore compared with a fresh process by a behavioural battery", "7 C18"),
+ "C18": ("Lean theorems over the option state machine: explicit forms idempotent, argument-less forms as documented, escaping switches never both on, restore to the fresh state after ANY history with punctuation key prefixes (C18_restore), defaults = source initialisers (regenerated), only setters write globals, non-interference facts over the regenerated call graph; histories compared state by state with the implementation (hook dump), restore compared with a fresh process by a behavioural battery; the decoder configuration a state stands for is a state machine of its own, restored by restoring, and unaffected by encoder-side calls anywhere in a history (C18_cfg_*, C18_decoder_ignores_encoder_calls); option histories followed by a decode are compared with the decoder model configured from the option model's state (optdoc)", "7 C18"),
  "C19": ("Lean theorems for both file loops: what JsonFile writes is read back Map by Map, empty objects kept, truncation at any cut gives the complete prefix and an error (C19_json_*, composed from the scanner and decoder theorems); on the token stream of an XML file n documents with arbitrary separators are read back as the n Maps of the single-document decoder in order, a cut inside document k never closes and gives the first k Maps with the error, the handler form stops without reading further (C19_xml_*); both loops are compared with the implementation on whole files (xfile: real token stream; jfile: bytes; cuts and junk) + implementation oracles on scratch files: XML and JSON files (plain, indented, Raw readers), truncation at random offsets, gob (single and encode-all-then-decode-all) and Copy round trips", "7 C19"),
  "C20": ("Lean theorems: the wrapper's own walkers equal the core walker (with attributes) / the core walker with attribute entries skipped at wildcard steps (without), ValuesAtKeyPath characterised, shortest path order-independent; every exported legacy function called beside its documented core composition on generated inputs", "7 C20"),
- "C05": ("Lean theorems over the regenerated escape table: escapeChars is a single pass (C05_escape_single_pass), unescape(escape s) = s for every string, escaped text has no raw special character, every '&' opens one of the five entities, no ']]>', decoder-mode fixed point; escapeChars tied by correspondence (hook) and its output fed to the real tokenizer in element and attribute position; model of the tokenizer's entity expansion sampled against encoding/xml; encoder-level clauses (four encoders x escaping modes x validity check) by implementation oracles", "7 C05"),
+ "C05": ("Lean theorems over the regenerated escape table: escapeChars is a single pass (C05_escape_single_pass), unescape(escape s) = s for every string, escaped text has no raw special character, every '&' opens one of the five entities, no ']]>', decoder-mode fixed point; escapeChars tied by correspondence (hook) and its output fed to the real tokenizer in element and attribute position; model of the tokenizer's entity expansion sampled against encoding/xml; encoder-level clauses (four encoders x escaping modes x validity check) by implementation oracles; encoder level: with escaping on every text and attribute value written by the compact and indented encoders is escapeChars of the value, hence free of raw specials and unescaping back to it (C05_enc_*)", "7 C05"),
  "C14": ("Lean theorems: the decision chain of cast branch by branch, never NaN/Inf unless CastNanInf for ANY strconv (C14_no_naninf), un-cast decoding yields only string leaves, decoding with the cast flag is related leaf-wise (CastRel) to decoding without it for every token stream (C14_structure); unit-level and document-level correspondence, exhaustive special spellings x option combinations", "7 C14"),
  "C07": ("Lean theorems: the walker and the look-ahead index wrapper return exactly the frontier denotation of a plain/wildcard/indexed path (C07_walk_is_denotation, C07_indexed_is_denotation, C07_path_is_denotation), ValueForPath/Exists consistency; model tied to keyvalues.go by correspondence, denotation also evaluated directly against the implementation", "7 C07"),
  "C08": ("Lean theorems: hasSubKeys is the documented predicate, sub-keys only filter, ValuesForKey = values stored under the key at any depth, PathsForKey = the distinct dot-paths ending in the key, shortest is minimal, values through the paths = ValuesForKey (on Maps without list-in-list); correspondence + direct oracles; one known finding (list directly inside list)", "7 C08"),
